@@ -530,7 +530,8 @@ class IoLab:
                 expect[(K_RDIR, r)] = f"OUT{l}:" + seen
             else:
                 makes.append(f"{body} > {self._q(lp)}")
-                expect[(K_RFILE, r)] = f"OUT{l}:" + seen
+                if not (td and kind == K_FILE):     # a plain output file inside the (removed) tempdir
+                    expect[(K_RFILE, r)] = f"OUT{l}:" + seen
         if mode == "interp":
             interp = self.dir_file(w, "interp")
             interp.write_text("#!/bin/sh\ncat \"$1\"\n" + "\n".join(makes) + "\n")
@@ -557,8 +558,6 @@ class IoLab:
                               f"{(prepared + chr(10)).encode()!r}", rep)
         for (kind, r), want in expect.items():
             p = Path(w.path(r), "z") if kind == K_RDIR else Path(w.path(r))
-            if td and not p.is_absolute():
-                continue        # a plain output file inside the removed tempdir
             got = p.read_text() if p.exists() else None
             if got != want:
                 ctx.violation(f"remote output p{r} holds {got!r}, the command made {want!r} "
@@ -694,7 +693,8 @@ def run(ctx: Ctx) -> None:
 
     # ---- 1. model checking + enumeration (one TLC run) ---------------------------------------
     cfg = gen_cfg("all", 4, not ctx.quick, dsh_len)
-    g = expect_clean(run_tlc("seq/Script_Gen.tla", cfg, ctx.scratch, env=JVM_LONG, timeout=2400, heap="8g"),
+    g = expect_clean(run_tlc("seq/Script_Gen.tla", cfg, ctx.scratch, workers=ctx.pick(8, "auto"), env=JVM_LONG,
+                             timeout=2400, heap="8g"),
                      "Script_Gen (laws of Script.tla on the bounded universe)")
     ctx.add_tlc(g)
     ctx.note("model_config", "commands of 1..4 lines over the %s line alphabet; input / output structures of "
@@ -705,11 +705,11 @@ def run(ctx: Ctx) -> None:
 
     # ---- 2. spec -> code: every enumerated command through the real functions -----------------
     sh = ShLab(ctx)
-    n_sh = ctx.pick(120, 1500)
+    n_sh = ctx.pick(25, 1500)
     sh_idx = set(rng.sample(range(len(cmd_cases)), min(n_sh, len(cmd_cases))))
     sh_runs = sh_printed = 0
     trace_batch: list = []
-    n_model_to_trace = ctx.pick(300, 3000)
+    n_model_to_trace = ctx.pick(150, 3000)
     tr_idx = set(rng.sample(range(len(cmd_cases)), min(n_model_to_trace, len(cmd_cases))))
     for i, c in enumerate(cmd_cases):
         exec_it = i in sh_idx
@@ -762,7 +762,7 @@ def run(ctx: Ctx) -> None:
     ctx.sample({"source": "tlc-exhaustive structure", "case": io_cases[len(io_cases) // 2]})
 
     # ---- 4. code -> spec: larger generated texts and structures --------------------------------
-    n_gen = ctx.pick(1200, 12000)
+    n_gen = ctx.pick(600, 12000)
     for _ in range(n_gen):
         prefix = rng.choice(["EOF"] * 6 + ["END", "X_", "EOF1"])
         text = gen_text(rng, prefix)
@@ -779,10 +779,13 @@ def run(ctx: Ctx) -> None:
                           {"kind": "cmd", "text": text, "prefix": prefix, "source": "generated"})
         trace_batch.append(rec)
     first_gen_io = len(trace_batch)
-    in_ids = [lid(K_STAGE, 3, 1), lid(K_STAGE, 4, 2), lid(K_STAGE, 2, 2), lid(K_SDIR, 4, 2)]
-    out_ids = [lid(K_STDOUT, 0, 0), lid(K_STAGE, 5, 7), lid(K_STAGE, 6, 8), lid(K_SDIR, 6, 8), lid(K_FILE, 0, 9),
-               lid(K_PLAIN, 0, 1), lid(K_PLAIN, 0, 2), lid(K_STAGE, 7, 7)]
-    for _ in range(ctx.pick(300, 3000)):
+    for _ in range(ctx.pick(200, 3000)):
+        # one role per path: remote 2 is a staged file, a file used in place, or a staged directory;
+        # local 6 / remote 8 a file or a directory; remote 7 copied from local 5 or written in place
+        in_ids = [lid(K_STAGE, 3, 1), rng.choice([lid(K_STAGE, 4, 2), lid(K_STAGE, 2, 2), lid(K_SDIR, 4, 2)])]
+        out_ids = [lid(K_STDOUT, 0, 0), rng.choice([lid(K_STAGE, 5, 7), lid(K_STAGE, 7, 7)]),
+                   rng.choice([lid(K_STAGE, 6, 8), lid(K_SDIR, 6, 8)]), lid(K_FILE, 0, 9),
+                   lid(K_PLAIN, 0, 1), lid(K_PLAIN, 0, 2)]
         ins = {"k": rng.choice(["list", "tuple"]), "t": 0, "y": [],
                "x": [gen_structure(rng, in_ids, 1) if rng.random() < 0.3 else leaf(rng.choice(in_ids))
                      for _ in range(rng.randint(0, 4))]}
@@ -800,7 +803,7 @@ def run(ctx: Ctx) -> None:
 
     # ---- 5. real sh on generated texts, real Scheduler on script() ----------------------------
     gen_cmds = [c for c in trace_batch if c["kind"] == "cmd" and c.get("_text") is not None and c["_prefix"] == "EOF"]
-    for c in rng.sample(gen_cmds, min(ctx.pick(60, 600), len(gen_cmds))):
+    for c in rng.sample(gen_cmds, min(ctx.pick(25, 600), len(gen_cmds))):
         text = "#!/bin/cat\n" + c["_text"].lstrip("\n ")      # printed, never interpreted
         prep, eof, wrapped, _r, _rw = cc.real(text, "EOF")
         shell = rng.choice(sh.shells)
@@ -814,15 +817,14 @@ def run(ctx: Ctx) -> None:
     ctx.note("sh_runs", {"wrappers_executed": sh_runs, "printed_by_the_command_itself": sh_printed,
                          "shells": sh.shells})
 
-    e2e_leaf_in = [lid(K_STAGE, 3, 1), lid(K_STAGE, 4, 2), lid(K_STAGE, 2, 2)]
+    s31, s42, s22, d42 = lid(K_STAGE, 3, 1), lid(K_STAGE, 4, 2), lid(K_STAGE, 2, 2), lid(K_SDIR, 4, 2)
+    e2e_in_sets = [[], [s31], [s42], [s31, s42], [s42, s31], [s31, s22], [d42], [s31, d42]]
     e2e_leaf_out = [lid(K_STDOUT, 0, 0), lid(K_STAGE, 5, 7), lid(K_STAGE, 6, 8), lid(K_FILE, 0, 9), lid(K_PLAIN, 0, 1),
                     lid(K_SDIR, 6, 8)]
-    n_e2e = ctx.pick(24, 240)
+    n_e2e = ctx.pick(16, 240)
     e2e_done = 0
     for k in range(n_e2e):
-        ins = {"k": "list", "t": 0, "y": [], "x": [leaf(i) for i in rng.sample(e2e_leaf_in, rng.randint(0, 2))]}
-        if rng.random() < 0.3 and ins["x"]:
-            ins["x"][0] = leaf(lid(K_SDIR, 4, 2)) if ins["x"][0]["t"] == lid(K_STAGE, 4, 2) else ins["x"][0]
+        ins = {"k": "list", "t": 0, "y": [], "x": [leaf(i) for i in rng.choice(e2e_in_sets)]}
         outs = gen_structure(rng, e2e_leaf_out, 2)
         # one writer per path: drop duplicates of a local path by rebuilding until unique (bounded)
         for _try in range(20):
